@@ -143,7 +143,25 @@ class _OsPath:
 
     exists = isfile
 
+    def getsize(self, p):
+        """size of an existing file: any non-negative integer (0 = an empty file is still an existing file)"""
+        w = world()
+        w.events.append(("getsize", _os.fspath(p)))
+        key = "size[%s]" % _os.fspath(p)
+        if key not in w._exists:
+            v = sym.SI(z3.Int(key))
+            sym.cur().assume(v >= 0)
+            w._exists[key] = v
+        return w._exists[key]
+
+    # members that only compute on the path string fall through to the real module; anything that would look at the
+    # real file system for a ghost path is out of reach (it used to fall through: FileNotFoundError, checker error)
+    _PURE = {"join", "basename", "dirname", "splitext", "split", "abspath", "normpath", "expanduser", "isabs", "sep",
+             "extsep", "pardir", "curdir", "relpath", "commonprefix", "commonpath", "normcase", "splitdrive", "expandvars"}
+
     def __getattr__(self, a):
+        if a not in self._PURE and not a.startswith("__"):
+            raise sym.OutOfReach("os.path.%s on a ghost path (file-system access not modelled)" % a)
         return getattr(_os.path, a)
 
 
